@@ -98,6 +98,26 @@ def source_namespace(model_text: str) -> Dict[str, Any]:
         if isinstance(node, ast.ClassDef):
             # ``class X(bool, DBC)`` is admitted by the meta-model language, but CPython cannot subclass bool
             node.bases = [b for b in node.bases if not (isinstance(b, ast.Name) and b.id == "bool")]
+    # the meta-model language does not prescribe an order of declarations; CPython needs the base classes first
+    classes = {node.name: node for node in tree.body if isinstance(node, ast.ClassDef)}
+    emitted: typing.Set[str] = set()
+    body: List[Any] = []
+
+    def emit(node: Any) -> None:
+        if node.name in emitted:
+            return
+        emitted.add(node.name)
+        for base in node.bases:
+            if isinstance(base, ast.Name) and base.id in classes:
+                emit(classes[base.id])
+        body.append(node)
+
+    for node in tree.body:
+        if isinstance(node, ast.ClassDef):
+            emit(node)
+        else:
+            body.append(node)
+    tree.body = body
     ns: Dict[str, Any] = {
         "DBC": DBC, "Enum": enum.Enum, "List": typing.List, "Optional": typing.Optional, "Set": typing.Set,
         "match": re.match, "invariant": _shim_invariant, "abstract": _passthrough_decorator,
